@@ -48,6 +48,7 @@ func runC20(o opts) error {
 		}
 		scns = append(scns, c20.FixedFits()...)
 		scns = append(scns, c20.FixedBlocks()...)
+		scns = append(scns, c20.RescaleBlocks(rng, o.tier == "thorough")...)
 		scns = append(scns, c20.FixedHist()...)
 	}
 	sink, err := trace.NewSink(o.out, o.shards)
